@@ -61,7 +61,10 @@ def gen_case(rng, spec, i):
     return c
 
 
-def build(c, spec):
+def build(c, spec, prev=None):
+    """prev: the built previous request of the same stack; when the case says so the
+    same transaction is asked again (another input, another mode, another receipt), as
+    a node does for each input of one transaction"""
     rng = random.Random(c["seed"])
     form = c["form"]
     out = {"sign_policy": {}, "hostile": None}
@@ -78,6 +81,8 @@ def build(c, spec):
         key = rng.choice(pool)
         tx = btctx.gen_tx(rng, max_in=spec["max_in"], max_out=spec["max_out"], big=big,
                           edges=True if big else "scripts")
+        if c.get("same_tx_as_previous") and prev is not None and "tx" in prev:
+            tx = prev["tx"]
         nin = len(tx["ins"])
         idx = rng.choice([0, 1 % nin, nin - 1, 2**32 - 1, rng.getrandbits(32), rng.randrange(nin)])
         segwit = None
@@ -261,8 +266,21 @@ def monitor(acc, c, b, dev, nrec_before, mark, bus, reply, exc):
 
 def run_case(acc, c, spec, stacks):
     from ..stack import Stack, signer_device
-    b = build(c, spec)
     key = c["v1"]
+    prev = stacks.get(("prev", key))
+    if prev is not None and "same_tx_as_previous" not in c and c["form"] != "hash" and \
+            "tx" in prev[1] and random.Random(c["seed"] ^ 0x5bd1e995).random() < 0.25:
+        # replays need the predecessor too
+        c["same_tx_as_previous"] = {k: v for k, v in prev[0].items()
+                                    if k != "same_tx_as_previous"}
+    if c.get("same_tx_as_previous") and prev is None:
+        # replay: run the predecessor first, on the same stack
+        run_case(acc, dict(c["same_tx_as_previous"]), spec, stacks)
+        prev = stacks.get(("prev", key))
+    b = build(c, spec, prev[1] if prev else None)
+    if c.get("same_tx_as_previous"):
+        acc.count("same_tx_asked_again")
+    stacks[("prev", key)] = (c, b)
     st = stacks.get(key)
     if st is None:
         dev = signer_device()
@@ -386,8 +404,9 @@ def run_shard(spec, acc):
     for i in range(spec["n"]):
         c = gen_case(rng, spec, i)
         run_case(acc, c, spec, stacks)
-    for (s, dev) in stacks.values():
-        s.__exit__(None, None, None)
+    for k, v in stacks.items():
+        if not isinstance(k, tuple):
+            v[0].__exit__(None, None, None)
 
 
 def replay(case, acc):
